@@ -222,6 +222,7 @@ impl Direct {
             });
         }
         let was_leader = state.role == RaftState::Leader;
+        let old_log: Vec<(usize, usize)> = state.log.iter().map(|e| (e.index, e.term_received)).collect();
         let res = catch(AssertUnwindSafe(|| raft_step(state, input)));
         match res {
             Err(msg) => {
@@ -253,6 +254,10 @@ impl Direct {
                 if !out.committed.is_empty() {
                     rec.count("committed-some");
                 }
+                let new_log: Vec<(usize, usize)> = state.log.iter().map(|e| (e.index, e.term_received)).collect();
+                if !new_log.starts_with(&old_log) {
+                    rec.count("log-truncated-or-overwritten");
+                }
                 let com: Vec<_> = out.committed.iter().map(entry_tuple).collect();
                 self.oracle.committed_out(rec, me, &com);
                 let log: Vec<_> = state.log.iter().map(entry_tuple).collect();
@@ -271,8 +276,9 @@ fn clone_rpc(m: &Rpc) -> Rpc {
 fn gen_direct(rec: &mut Recorder, case: u64, rng: &mut Rng, tier: &str) {
     let n = *rng.pick(&[3usize, 3, 3, 3, 5, 5, 4, 2, 1]);
     // schedule style
-    let style = rng.below(4);
+    let style = rng.below(5);
     let (p_del, p_dup, p_drop, p_el, p_hb, p_req) = match style {
+        4 => (85, 3, 0, 2, 50, 45), // divergence: isolate the leader, let another one win, heal
         0 => (80, 2, 1, 4, 45, 30),   // calm: elections settle, entries replicate and commit
         1 => (50, 15, 8, 12, 35, 30), // lossy, duplicating
         2 => (35, 10, 3, 25, 30, 30), // election storms
@@ -292,6 +298,20 @@ fn gen_direct(rec: &mut Recorder, case: u64, rng: &mut Rng, tier: &str) {
         if d.dead {
             break;
         }
+        if style == 4 && n >= 3 && stepno % 25 == 12 {
+            // isolate whoever leads now (its appended entries stay unreplicated), then force elections
+            for (m, st) in &d.states {
+                if st.role == RaftState::Leader {
+                    isolated[*m as usize] = true;
+                }
+            }
+            rec.count("isolate-leader");
+        }
+        if style == 4 && stepno % 25 == 24 {
+            for i in isolated.iter_mut() {
+                *i = false;
+            }
+        }
         if rng.chance(3, 100) {
             // toggle isolation of a random member (messages stay in the pool: delayed, not lost)
             let m = rng.below(n as u64) as usize;
@@ -309,7 +329,12 @@ fn gen_direct(rec: &mut Recorder, case: u64, rng: &mut Rng, tier: &str) {
         let mut batch = vec![];
         let mut keep = vec![];
         for (to, from, m) in pool.drain(..) {
-            if to == me && !isolated[me as usize] && rng.chance(p_del, 100) && batch.len() < 7 {
+            if to == me
+                && !isolated[me as usize]
+                && !isolated[from as usize]
+                && rng.chance(p_del, 100)
+                && batch.len() < 7
+            {
                 if rng.chance(p_dup, 100) {
                     keep.push((to, from, clone_rpc(&m))); // duplicate delivery later
                 }
@@ -327,7 +352,8 @@ fn gen_direct(rec: &mut Recorder, case: u64, rng: &mut Rng, tier: &str) {
             batch.swap(i, j);
         }
         let is_leader = d.states.get(&me).map(|s| s.role == RaftState::Leader).unwrap_or(false);
-        let el = rng.chance(if stepno < 3 { 50 } else { p_el }, 100);
+        let storm = style == 4 && (13..18).contains(&(stepno % 25)) && !isolated[me as usize];
+        let el = rng.chance(if stepno < 3 || storm { 50 } else { p_el }, 100);
         let hb = rng.chance(if is_leader { p_hb + 30 } else { p_hb }, 100);
         let mut requests = vec![];
         if rng.chance(if is_leader { p_req + 20 } else { p_req / 3 }, 100) {
@@ -439,6 +465,10 @@ fn main() {
         simrun::child(&a);
         return;
     }
+    if a.mode == "c40-slots" {
+        simrun::slots_child();
+        return;
+    }
     if a.mode != "c40" {
         eprintln!("unknown mode {}", a.mode);
         std::process::exit(2);
@@ -463,10 +493,12 @@ fn main() {
         gen_direct(&mut rec, i, &mut rng, &a.tier);
     }
     // simulator cases (real Hydro program)
+    // `--sim N` / env HV_C40_SIM=N override the number of simulator iterations (0 = skip the simulator part)
     let sim_iters: u64 = a
         .extra
         .get("sim")
         .and_then(|v| v.parse().ok())
+        .or_else(|| std::env::var("HV_C40_SIM").ok().and_then(|v| v.parse().ok()))
         .unwrap_or(if a.tier == "thorough" { 300 } else { 24 });
     if sim_iters > 0 {
         simrun::parent(&mut rec, &a, sim_iters, a.cases + 1);
